@@ -74,12 +74,12 @@ Theorem C11_legacy_canonical_default :
 Proof. exact legacy_canonical_default. Qed.
 Print Assumptions C11_legacy_canonical_default.
 
-(* the model's insertion sort meets S1 on valid ids (so S1 is satisfiable and the model is an instance) *)
-Theorem C11_sort_legacy_meets_spec :
-  forall first last l, valid_ids l ->
-    Permutation (sort_legacy first last l) l /\ weakly_sorted (legacy_less first last) (sort_legacy first last l).
-Proof. exact sort_legacy_spec. Qed.
-Print Assumptions C11_sort_legacy_meets_spec.
+(* S1 is satisfiable: the model's insertion sort meets the contract of sort.Sort on every input, for all order
+   lists (so C11_legacy_canonical is not vacuous and the executable model is one of its instances) *)
+Theorem C11_sort_spec_satisfiable :
+  forall first last, sort_spec (legacy_less first last) (sort_legacy first last).
+Proof. exact sort_legacy_sort_spec. Qed.
+Print Assumptions C11_sort_spec_satisfiable.
 
 (* Without the hypotheses the order is NOT total.  (a) default lists, API group starting with byte 0x7f:
    a 3-cycle among Namespace kinds - outside Kubernetes' name space, a remark. *)
